@@ -360,6 +360,23 @@ fn gen_delegation_method<'s>(
             },
         })
         .collect();
+    // The method's own type and const parameters are passed on explicitly:
+    // nothing in the arguments need mention them (`fn make<U: Default>(&self) -> String`)
+    let generic_arguments: Vec<_> = fn_sig
+        .generics
+        .params
+        .iter()
+        .filter_map(|param| match param {
+            syn::GenericParam::Type(type_param) => Some(&type_param.ident),
+            syn::GenericParam::Const(const_param) => Some(&const_param.ident),
+            syn::GenericParam::Lifetime(_) => None,
+        })
+        .collect();
+    let turbofish = if generic_arguments.is_empty() {
+        None
+    } else {
+        Some(quote! { ::<#(#generic_arguments),*> })
+    };
     let core = &generic_idents.crate_idents.core;
     // `self` is hygienic: the delegating body has to use the receiver's own token, which does not
     // come from this macro invocation when the trait is (partly) stamped out by `macro_rules!`
@@ -375,7 +392,7 @@ fn gen_delegation_method<'s>(
                 sig: fn_sig,
                 call: quote! {
                     // TODO: pass additional generic arguments(?)
-                    <#impl_t::Target as #impl_trait_ident<#impl_t>>::#fn_ident(#self_value, #(#arguments),*)
+                    <#impl_t::Target as #impl_trait_ident<#impl_t>>::#fn_ident #turbofish (#self_value, #(#arguments),*)
                 },
             }
         }
@@ -392,13 +409,13 @@ fn gen_delegation_method<'s>(
                 RefDelegate::AsRef => {
                     quote! {
                         <#impl_t as ::#core::convert::AsRef<dyn #impl_trait_ident<#impl_t> #plus_sync>>::as_ref(&*#self_value)
-                            .#fn_ident(#self_value, #(#arguments),*)
+                            .#fn_ident #turbofish (#self_value, #(#arguments),*)
                     }
                 }
                 RefDelegate::Borrow => {
                     quote! {
                         <#impl_t as ::#core::borrow::Borrow<dyn #impl_trait_ident<#impl_t> #plus_sync>>::borrow(&*#self_value)
-                            .#fn_ident(#self_value, #(#arguments),*)
+                            .#fn_ident #turbofish (#self_value, #(#arguments),*)
                     }
                 }
             };
@@ -413,14 +430,14 @@ fn gen_delegation_method<'s>(
             trait_fn,
             sig: fn_sig,
             call: quote! {
-                #self_value.as_ref().as_ref().#fn_ident(#(#arguments),*)
+                #self_value.as_ref().as_ref().#fn_ident #turbofish (#(#arguments),*)
             },
         },
         (None, Some(SpanOpt(Delegate::ByRef(RefDelegate::Borrow), _))) => DelegatingMethod {
             trait_fn,
             sig: fn_sig,
             call: quote! {
-                #self_value.as_ref().borrow().#fn_ident(#(#arguments),*)
+                #self_value.as_ref().borrow().#fn_ident #turbofish (#(#arguments),*)
             },
         },
         _ => {
@@ -430,9 +447,9 @@ fn gen_delegation_method<'s>(
             );
             let call = if takes_self_by_value {
                 // a by-value receiver hands the application over to the delegate
-                quote! { #self_value.into_inner().#fn_ident(#(#arguments),*) }
+                quote! { #self_value.into_inner().#fn_ident #turbofish (#(#arguments),*) }
             } else {
-                quote! { #self_value.as_ref().#fn_ident(#(#arguments),*) }
+                quote! { #self_value.as_ref().#fn_ident #turbofish (#(#arguments),*) }
             };
 
             DelegatingMethod {
